@@ -172,6 +172,168 @@ func runC08CommandInterleave() {
 	}
 }
 
+// traceShape classifies the storage steps of ONE call on the plain handle: "single" (one
+// statement, atomic by itself), "bracket" (everything between one begin and its commit), "none",
+// or a description of what is outside (several statements with no transaction around them,
+// statements before or after the bracket, two brackets).
+func traceShape(trace []string) string {
+	var steps []string
+	for _, t := range trace {
+		if t != "done" && t != "stmt" && t != "ddl" {
+			steps = append(steps, t)
+		}
+	}
+	if len(steps) == 0 {
+		return "none"
+	}
+	if len(steps) == 1 && steps[0] != "begin" {
+		return "single"
+	}
+	if steps[0] == "begin" && steps[len(steps)-1] == "commit" {
+		inner := 0
+		for _, t := range steps[1 : len(steps)-1] {
+			if t == "begin" || t == "commit" {
+				inner++
+			}
+		}
+		if inner == 0 {
+			return "bracket"
+		}
+		return "several transactions: " + strings.Join(steps, ",")
+	}
+	if steps[0] == "begin" {
+		// a transaction that was rolled back (refused operation): begin, statements, no commit
+		for _, t := range steps[1:] {
+			if t == "begin" || t == "commit" {
+				return "statements outside the transaction: " + strings.Join(steps, ",")
+			}
+		}
+		return "bracket"
+	}
+	return "statements outside a transaction: " + strings.Join(steps, ",")
+}
+
+// runC08TraceShapes: every kind of operation of the Go API and every command (one well-formed
+// vector each, through the server's parse-and-run code) is run once on the plain handle with the
+// interposing driver recording its storage steps: a call is ONE statement or ONE transaction.
+func runC08TraceShapes(seed int64) { traceShapes(seed, "c08-not-atomic", false) }
+
+// traceShapes: see runC08TraceShapes; failKind names the failure, writesOnly leaves the reads out
+// (all-or-nothing and durability speak about calls that write).
+func traceShapes(seed int64, failKind string, writesOnly bool) {
+	tweak := func(p *hx.Profile) {
+		p.MinSteps, p.MaxSteps = 8, 20
+	}
+	pool := newCasePool(seed+91, allFamilies, 30, tweak, func(st *hx.Step) bool {
+		return !st.Block && st.Gen == nil && len(st.Ops) == 1
+	})
+	bad := map[string]string{}
+	shapes := map[string]int{}
+	for _, kind := range pool.kinds {
+		for try := 0; try < 3; try++ {
+			c, found := pool.Take(kind)
+			if !found {
+				break
+			}
+			x, err := hx.OpenMemDriver(fmt.Sprintf("shape_%s_%d", strings.ReplaceAll(kind, ":", "_"), try), hx.FaultDriverName)
+			if err != nil {
+				fail("harness", err.Error(), nil)
+				return
+			}
+			for _, st := range c.Prefix {
+				runStepRaw(x, st)
+			}
+			hx.Plan.Arm(0, 0, false)
+			runOpDB(x, c.Target.Ops[0])
+			trace := append([]string(nil), hx.Plan.Trace...)
+			hx.Plan.Disarm()
+			x.Close()
+			sh := traceShape(trace)
+			if writesOnly && !c.Target.Ops[0].Write {
+				break
+			}
+			if c.Target.Ops[0].Name == "SIncrFloat" || c.Target.Ops[0].Name == "HIncrFloat" {
+				continue // (the harness wrapper of these two reads the old value itself first; covered as commands below)
+			}
+			sum.Cases++
+			if sh == "single" || sh == "bracket" || sh == "none" {
+				shapes[sh]++
+			} else if _, seen := bad[kind]; !seen {
+				bad[kind] = fmt.Sprintf("[%s]: %s", c.Target.Ops[0].Tok, sh)
+			}
+		}
+	}
+	// ... and every command of the dispatch table, on keys that exist (and on a wrong-type key)
+	cmds := [][]string{
+		{"DEL", "k1", "k2"}, {"EXISTS", "k1", "k2", "k1"}, {"EXPIRE", "k1", "1000"}, {"EXPIREAT", "k1", "9999999999"}, {"KEYS", "*"}, {"PERSIST", "k1"},
+		{"PEXPIRE", "k1", "1000000"}, {"PEXPIREAT", "k1", "9999999999000"}, {"RANDOMKEY"}, {"RENAME", "k1", "k9"}, {"RENAMENX", "k1", "k8"}, {"SCAN", "0"},
+		{"TTL", "k1"}, {"TYPE", "k1"}, {"DBSIZE"},
+		{"LINDEX", "l", "-1"}, {"LINSERT", "l", "BEFORE", "b", "x"}, {"LLEN", "l"}, {"LPOP", "l"}, {"LPUSH", "l", "x"}, {"LRANGE", "l", "-2", "-1"}, {"LREM", "l", "0", "a"},
+		{"LSET", "l", "0", "v"}, {"LTRIM", "l", "0", "1"}, {"RPOP", "l"}, {"RPOPLPUSH", "l", "l2"}, {"RPUSH", "l", "x"},
+		{"DECR", "n"}, {"DECRBY", "n", "2"}, {"GET", "k1"}, {"GETSET", "k1", "v"}, {"INCR", "n"}, {"INCRBY", "n", "5"}, {"INCRBYFLOAT", "n", "1.5"}, {"MGET", "k1", "k2"},
+		{"MSET", "k1", "a", "k2", "b", "k7", "c"}, {"PSETEX", "k1", "100000", "v"}, {"SET", "k1", "v"}, {"SET", "k1", "v", "NX"}, {"SET", "k1", "v", "XX", "GET", "EX", "1000"},
+		{"SET", "k1", "v", "KEEPTTL"}, {"SETEX", "k1", "1000", "v"}, {"SETNX", "k6", "v"}, {"STRLEN", "k1"},
+		{"HDEL", "h", "f1", "f2"}, {"HEXISTS", "h", "f1"}, {"HGET", "h", "f1"}, {"HGETALL", "h"}, {"HINCRBY", "h", "f1", "2"}, {"HINCRBYFLOAT", "h", "f1", "1.5"}, {"HKEYS", "h"},
+		{"HLEN", "h"}, {"HMGET", "h", "f1", "f2"}, {"HMSET", "h", "f1", "1", "f3", "3"}, {"HSCAN", "h", "0"}, {"HSET", "h", "f1", "1", "f4", "4"}, {"HSETNX", "h", "f9", "v"}, {"HVALS", "h"},
+		{"SADD", "e", "m1", "m2"}, {"SCARD", "e"}, {"SDIFF", "e", "e2"}, {"SDIFFSTORE", "d", "e", "e2"}, {"SINTER", "e", "e2"}, {"SINTERSTORE", "d", "e", "e2"}, {"SISMEMBER", "e", "x"},
+		{"SMEMBERS", "e"}, {"SMOVE", "e", "e2", "x"}, {"SPOP", "e"}, {"SRANDMEMBER", "e"}, {"SREM", "e", "x", "y"}, {"SSCAN", "e", "0"}, {"SUNION", "e", "e2"}, {"SUNIONSTORE", "d", "e", "e2"},
+		{"ZADD", "z", "1", "m1", "2", "m2"}, {"ZCARD", "z"}, {"ZCOUNT", "z", "0", "5"}, {"ZINCRBY", "z", "2", "x"}, {"ZINTER", "2", "z", "z2"}, {"ZINTERSTORE", "zd", "2", "z", "z2"},
+		{"ZRANGE", "z", "0", "-1"}, {"ZRANGEBYSCORE", "z", "0", "5"}, {"ZRANK", "z", "x"}, {"ZREM", "z", "x", "y"}, {"ZREMRANGEBYRANK", "z", "0", "0"}, {"ZREMRANGEBYSCORE", "z", "0", "1"},
+		{"ZREVRANGE", "z", "0", "-1"}, {"ZREVRANGEBYSCORE", "z", "5", "0"}, {"ZREVRANK", "z", "x"}, {"ZSCAN", "z", "0"}, {"ZSCORE", "z", "x"}, {"ZUNION", "2", "z", "z2"}, {"ZUNIONSTORE", "zd", "2", "z", "z2"},
+		// refused: a key of another type in a later role
+		{"MSET", "k1", "a", "l", "b"}, {"SMOVE", "e", "k1", "x"}, {"RPOPLPUSH", "l", "k1"}, {"SUNIONSTORE", "k1", "e"}, {"ZUNIONSTORE", "k1", "1", "z"}, {"RENAME", "nokey", "k1"},
+	}
+	setup := [][]string{{"MSET", "k1", "a", "k2", "b"}, {"SET", "n", "5"}, {"HSET", "h", "f1", "1", "f2", "b"}, {"SADD", "e", "x", "y"}, {"SADD", "e2", "y", "w"},
+		{"ZADD", "z", "1", "x", "2", "y"}, {"ZADD", "z2", "5", "y"}, {"RPUSH", "l", "a"}, {"RPUSH", "l", "b"}, {"RPUSH", "l", "c"}, {"EXPIRE", "k1", "5000"}}
+	for i, c := range cmds {
+		x, err := hx.OpenMemDriver(fmt.Sprintf("shapec_%d", i), hx.FaultDriverName)
+		if err != nil {
+			fail("harness", err.Error(), nil)
+			return
+		}
+		for _, st := range setup {
+			runOpDB(x, hx.CommandOp(true, st...))
+		}
+		hx.Plan.Arm(0, 0, false)
+		res := runOpDB(x, hx.CommandOp(true, c...))
+		trace := append([]string(nil), hx.Plan.Trace...)
+		hx.Plan.Disarm()
+		x.Close()
+		if strings.HasPrefix(res, "err parse") {
+			continue // not a command of this server
+		}
+		sh := traceShape(trace)
+		if writesOnly {
+			wrote := false
+			for _, t := range trace {
+				if t == "exec" || t == "begin" {
+					wrote = true
+				}
+			}
+			if !wrote {
+				continue
+			}
+		}
+		sum.Cases++
+		if sh == "single" || sh == "bracket" || sh == "none" {
+			shapes["command_"+sh]++
+		} else if _, seen := bad["cmd:"+c[0]]; !seen {
+			bad["cmd:"+c[0]+fmt.Sprint(i)] = fmt.Sprintf("[%s]: %s", strings.Join(c, " "), sh)
+		}
+	}
+	for k, v := range shapes {
+		sum.Counters["trace_shape_"+k] += v
+	}
+	var names []string
+	for k := range bad {
+		names = append(names, k)
+	}
+	sort.Strings(names)
+	for _, k := range names {
+		fail(failKind, "one call on the plain handle is neither one statement nor one transaction: "+bad[k], map[string]any{"kind": k})
+	}
+}
+
 // readEligible: a single reading operation on the plain handle whose result is determined by the content.
 func readEligible(st *hx.Step) bool {
 	if st.Block || st.Gen != nil || len(st.Ops) != 1 {
